@@ -156,6 +156,34 @@ theorem C20_software_ident (cfg : NetCfg) (f : Frame) (hp : pgn f.id = pgnReques
   have e1 : pgnSoftwareIdentification ≠ pgnAddressClaimed := by decide
   simp [e1]
 
+/-- THE TIE for the responder: the arms the translator reads off `NetworkAuthority::recv` in the current source (and its
+own-address guard) are the three groups this model answers -/
+theorem C20_served_requests_as_modelled :
+    (servedRequestPgns.all ([pgnAddressClaimed, pgnSoftwareIdentification, pgnTimeDate].contains ·) &&
+     [pgnAddressClaimed, pgnSoftwareIdentification, pgnTimeDate].all (servedRequestPgns.contains ·)) = true ∧
+    requestOwnAddressGuard = true := by decide
+
+/-- corollary on the regenerated table alone: the node puts a frame on the bus in answer to a request only when the
+requested group has an arm in the CURRENT source's responder and the request was addressed to the node itself -/
+theorem C20_answers_only_served (cfg : NetCfg) (f : Frame) (r : Frame) (rs : List Frame) (h : respond cfg f = some (r :: rs)) :
+    servedRequestPgns.contains (reqPgn f) = true ∧ destination? f.id = some cfg.address := by
+  have ht := C20_served_requests_as_modelled.1
+  simp only [Bool.and_eq_true, List.all_eq_true] at ht
+  rw [C20_responder] at h
+  by_cases h0 : pgn f.id ≠ pgnRequest
+  · simp [h0] at h
+  · by_cases h1 : destination? f.id ≠ some cfg.address
+    · simp [h0, h1] at h
+    · have hd : destination? f.id = some cfg.address := by simpa using h1
+      refine ⟨?_, hd⟩
+      by_cases g1 : reqPgn f = pgnAddressClaimed
+      · rw [g1]; exact ht.2 _ (by simp)
+      · by_cases g2 : reqPgn f = pgnSoftwareIdentification
+        · rw [g2]; exact ht.2 _ (by simp)
+        · by_cases g3 : reqPgn f = pgnTimeDate
+          · rw [g3]; exact ht.2 _ (by simp)
+          · simp [h0, h1, g1, g2, g3] at h
+
 /-! ### the units driven -/
 
 /-- what a single configured entry becomes -/
